@@ -36,6 +36,7 @@ func c18(tier string) []*explore.Scenario {
 	for _, newKey := range []bool{true, false} {
 		out = append(out, c18StopRace(newKey, bound+1))
 	}
+	out = append(out, c18WriteFault(bound))
 	seqLen := 5
 	if tier == "thorough" {
 		seqLen = 7
@@ -526,6 +527,79 @@ func c18StopRace(newKey bool, bound int) *explore.Scenario {
 			if ts := vsched.Threads(); len(ts) > 0 {
 				vsched.Fail(fam+"|goroutine-leak", "after Stop, Cancel of every key and the transport closing: %s", threadList())
 			}
+		},
+	}
+}
+
+// c18WriteFault: the shared transport refuses ONE write (of an envelope written
+// on key k0's connection). That concerns k0 at most: envelopes written on k1's
+// connection afterwards still reach the shared transport, unchanged, in order,
+// and k1's reads still work.
+func c18WriteFault(bound int) *explore.Scenario {
+	fam := "C18/write-fault"
+	return &explore.Scenario{
+		Name: "C18/write-fault/one-refused-write", Family: fam, Prop: "C18", Bound: bound,
+		Run: func() {
+			e := newC18(false)
+			vsched.Settle()
+			reads := map[int]int{}
+			for i, key := range []string{"k0", "k1"} {
+				i := i
+				e.shared.A.Inject(c18Msg(uint64(1+i), key))
+				vsched.Quiesce() // the connection is announced; Run is parked handing over its first envelope
+				if len(e.conns) != i+1 {
+					break
+				}
+				vsched.GoNamed(fmt.Sprintf("first-read-%d", i), func() {
+					if _, err := e.conns[i].Read(context.Background()); err == nil {
+						reads[i]++
+					}
+				})
+				vsched.Quiesce()
+			}
+			if len(e.conns) != 2 || reads[0] != 1 || reads[1] != 1 {
+				vsched.Fail(fam+"|harness", "setup: %d connections, reads %v", len(e.conns), reads)
+				return
+			}
+			vsched.Explore(true)
+			e.shared.B.FailNextWrites = 1
+			w0done, w1done := false, false
+			var w1errs []error
+			vsched.GoNamed("writer-k0", func() {
+				e.conns[0].Write(context.Background(), c18Msg(100, "k0")) // this one is refused by the transport
+				w0done = true
+			})
+			vsched.Quiesce()
+			vsched.GoNamed("writer-k1", func() {
+				for id := uint64(200); id < 203; id++ {
+					w1errs = append(w1errs, e.conns[1].Write(context.Background(), c18Msg(id, "k1")))
+				}
+				w1done = true
+			})
+			vsched.Quiesce()
+			var got []uint64
+			for _, ev := range e.tap.Events {
+				if ev.Dir == "b2a" && ev.Rpc.GetId() >= 200 {
+					got = append(got, ev.Rpc.GetId())
+				}
+			}
+			vsched.Obs("k0 write returned=%v; k1 writes done=%v errs=%v on-transport=%v", w0done, w1done, w1errs, got)
+			if !w1done {
+				vsched.Fail(fam+"|other-key-blocked", "one write on k0's connection was refused by the shared transport; writes on k1's connection now block; threads: %s", threadList())
+			} else if fmt.Sprint(got) != "[200 201 202]" {
+				vsched.Fail(fam+"|other-key-lost", "one write on k0's connection was refused by the shared transport; k1's connection then accepted 3 writes (errors %v) of which %v reached the shared transport", w1errs, got)
+			}
+			e.shared.A.Inject(c18Msg(3, "k1"))
+			rd := false
+			vsched.GoNamed("reader-k1", func() { _, err := e.conns[1].Read(context.Background()); rd = err == nil })
+			vsched.Quiesce()
+			if !rd {
+				vsched.Fail(fam+"|other-key-blocked", "after the refused write, k1's connection no longer receives")
+			}
+			e.dm.Stop()
+			e.shared.A.Break()
+			e.shared.B.Break()
+			vsched.Quiesce()
 		},
 	}
 }
